@@ -161,6 +161,73 @@ def run(ctx, config='rel-all'):
             else:
                 ctx.violation('R6', 'Bump::' + name, 'forward-count', 'Bump::%s must reserve exactly iter.len() slots' % name, b.get('span'))
     ctx.floor('R6', n6, 24, 'public arena methods returning a mutable reference')
+    # ---- R7 what the thin forwards put into the slots: the generator closure they hand to the analysed initialiser yields the
+    # caller's value (copy), a clone of it, T::default(), or the iterator's next item -- and the count / source is the caller's
+    n7 = 0
+    P1, P2_, P3_ = ('param', 1), ('param', 2), ('param', 3)
+    for pre in ('', 'try_'):
+        for kind in ('copy', 'clone', 'default', 'iter'):
+            name = '%salloc_slice_fill_%s' % (pre, kind)
+            if pre == 'try_' and kind == 'iter':
+                name = 'try_alloc_slice_fill_iter'
+            b = arena.bump_method(db, name)
+            if b is None:
+                ctx.anchor_missing('R7', 'Bump::' + name)
+                continue
+            I, r = arena.run_fn(ctx, b['id'], config)
+            fw = [e for e in r.events if len(e.stack) == 1 and e.kind == 'call' and (e.callee or '').endswith('alloc_slice_fill_with')]
+            cl = [x for x in db.fn_bodies() if x['kind'] == 'closure' and x['id'].startswith(b['id'] + '::{closure')]
+            okv = len(fw) == 1 and fw[0].args[0] == P1 and len(cl) >= 1
+            if okv and kind != 'iter':
+                okv = fw[0].args[1] == P2_
+            if okv:
+                I2, r2 = arena.run_fn(ctx, cl[0]['id'], config)
+                isup = lambda t: isinstance(t, tuple) and len(t) == 3 and t[0] == 'load' and t[1][0] == 'fld' and t[1][1] == ('deref', P1) and t[1][2].endswith('.upvar0')
+                up = None
+                if kind == 'copy':
+                    okv = r2.ret is not None and r2.ret[0] == 'load' and r2.ret[1][0] == 'deref' and isup(r2.ret[1][1])
+                elif kind == 'clone':
+                    okv = r2.ret is not None and r2.ret[0] == 'call' and r2.ret[1].endswith('Clone::clone') and len(r2.ret[2]) == 1 and isup(r2.ret[2][0])
+                elif kind == 'default':
+                    okv = r2.ret is not None and r2.ret[0] == 'call' and r2.ret[1].endswith('Default::default')
+                else:
+                    okv = r2.ret is not None and r2.ret[0] == 'app' and r2.ret[1] in ('payload', 'vproj') and r2.ret[2][0] == 'call' and r2.ret[2][1].endswith('::next') and len(r2.ret[2][2]) == 1 and isup(r2.ret[2][2][0])
+            n7 += 1
+            what = {'copy': 'the value itself', 'clone': 'value.clone()', 'default': 'T::default()', 'iter': 'the next item of the iterator (one per slot)'}[kind]
+            if okv:
+                ctx.ok('R7', 'Bump::%s: every slot receives %s' % (name, what), 'return term of the generator closure')
+            else:
+                ctx.violation('R7', 'Bump::' + name, 'generator', 'Bump::%s must fill every slot with %s, for exactly the requested number of slots' % (name, what), b.get('span'))
+    for name, core in (('alloc_str', 'alloc_slice_copy'), ('try_alloc_str', 'try_alloc_slice_copy')):
+        b = arena.bump_method(db, name)
+        if b is None:
+            ctx.anchor_missing('R7', 'Bump::' + name)
+            continue
+        I, r = arena.run_fn(ctx, b['id'], config)
+        fw = [e for e in r.events if len(e.stack) == 1 and e.kind == 'call' and (e.callee or '').endswith('::' + core)]
+        n7 += 1
+        if len(fw) == 1 and fw[0].args == [P1, P2_]:
+            ctx.ok('R7', 'Bump::%s copies exactly the bytes of the source string' % name, 'forward to %s(self, src.as_bytes())' % core)
+        else:
+            ctx.violation('R7', 'Bump::' + name, 'bytes', 'Bump::%s must copy exactly src.as_bytes() through %s' % (name, core), b.get('span'))
+    for name, core in (('alloc', 'alloc_with'), ('try_alloc', 'try_alloc_with')):
+        b = arena.bump_method(db, name)
+        if b is None:
+            ctx.anchor_missing('R7', 'Bump::' + name)
+            continue
+        I, r = arena.run_fn(ctx, b['id'], config)
+        fw = [e for e in r.events if len(e.stack) == 1 and e.kind == 'call' and (e.callee or '').endswith('::' + core)]
+        cl = [x for x in db.fn_bodies() if x['kind'] == 'closure' and x['id'].startswith(b['id'] + '::{closure')]
+        okv = len(fw) == 1 and fw[0].args[0] == P1 and len(cl) == 1
+        if okv:
+            I2, r2 = arena.run_fn(ctx, cl[0]['id'], config)
+            okv = r2.ret is not None and ((r2.ret[0] == 'app' and r2.ret[1] == 'proj' and r2.ret[2] == P1 and r2.ret[3].endswith('.upvar0')) or (r2.ret[0] == 'load' and r2.ret[1][0] == 'fld' and r2.ret[1][2].endswith('.upvar0')))
+        n7 += 1
+        if okv:
+            ctx.ok('R7', 'Bump::%s stores the given value' % name, 'generator closure returns its captured value')
+        else:
+            ctx.violation('R7', 'Bump::' + name, 'value', 'Bump::%s must store exactly the value it was given' % name, b.get('span'))
+    ctx.floor('R7', n7, 12, 'thin forwards checked for what they put into the slots')
     # value methods: the value is written exactly at the reserved pointer, once
     for name in VALUE_METHODS:
         b = arena.bump_method(db, name)
